@@ -450,6 +450,127 @@ def _key_sign(key, fi, idx):
     return None
 
 
+def _fold_selection(r, fi, C, info, res_name, wname, env):
+    """Running-best idiom: `best = results[0]; for x in results[1:]: if COND(x, best): best = x`.  COND is decided over the
+    complete order domain (grade of x <, =, > grade of best) x (len(msg) of x <, =, > len(msg) of best): the best must be
+    replaced iff the grade is higher, or equal with a longer message ((=, =) is left open: the property does not say which of
+    two equally long messages is shown)."""
+    binds = [n for n in walk_own(fi.node) if isinstance(n, ast.Assign) and any(fl.name_of(t) == wname for t in n.targets)]
+    init = [n for n in binds if fl.enclosing_loop(n, fi.node) is None]
+    upd = [n for n in binds if fl.enclosing_loop(n, fi.node) is not None]
+    if len(init) != 1 or len(upd) != 1:
+        return False
+    init, upd = init[0], upd[0]
+    loop = fl.enclosing_loop(upd, fi.node)
+    if not (isinstance(loop, ast.For) and isinstance(loop.target, ast.Name) and fl.name_of(upd.value) == loop.target.id):
+        return False
+    xv = loop.target.id
+    where = lib.loc(fi, loop)
+    # aliases of the current best inside the loop body (`best = best_result_with_longest_msg`)
+    best_alias = {wname}
+    for n in ast.walk(loop):
+        if isinstance(n, ast.Assign) and len(n.targets) == 1 and isinstance(n.targets[0], ast.Name) and fl.name_of(n.value) in best_alias \
+                and n.targets[0].id != wname:
+            best_alias.add(n.targets[0].id)
+    # ---- coverage: init = results[0], loop over results[1:] or over all results
+    seq, _ = fl.unwrap_seq(loop.iter)
+    i0 = init.value
+    init_ok = isinstance(i0, ast.Subscript) and fl.name_of(i0.value) == res_name and nf.const_value(i0.slice, None) == 0
+    if fl.name_of(seq) == res_name:
+        cover = True
+    elif isinstance(seq, ast.Subscript) and fl.name_of(seq.value) == res_name and isinstance(seq.slice, ast.Slice) \
+            and nf.const_value(seq.slice.lower, None) in (0, 1, None) and seq.slice.upper is None and seq.slice.step is None:
+        cover = True
+    else:
+        cover = False
+    exits = [e for e in lib.loop_has_early_exit(loop) if not isinstance(e, ast.Raise)]
+    if exits:
+        r.violation(C + ': candidates', 'the running-best loop is left early (`%s`): later results cannot win' % short(exits[0]), where)
+    elif init_ok and cover:
+        r.ok(C + ': candidates', 'running best over all results (starts with results[0], visits every other result)', where)
+    elif init_ok and isinstance(seq, ast.Subscript) and fl.mentions(seq, res_name):
+        r.violation(C + ': candidates', 'the running-best loop visits only `%s`: the other results cannot win' % short(seq), where)
+    else:
+        r.undecided(C + ': candidates', 'start value / range of the running-best loop not recognised: %s ; %s' % (short(init), short(seq)),
+                    where)
+    # ---- the update condition over the order domain
+    conj = [c for c in fl.reach_condition(upd, fi.node)]
+    import operator
+    OPS = {ast.Eq: operator.eq, ast.NotEq: operator.ne, ast.Lt: operator.lt, ast.LtE: operator.le, ast.Gt: operator.gt, ast.GtE: operator.ge}
+
+    class Unknown(Exception):
+        pass
+
+    def val(e, gx, gb, lx, lb):
+        if isinstance(e, ast.Subscript) and lib.subscript_key(e) == 'grade_decimal' and isinstance(e.value, ast.Name):
+            if e.value.id == xv:
+                return gx
+            if e.value.id in best_alias:
+                return gb
+        if isinstance(e, ast.Call) and isinstance(e.func, ast.Name) and e.func.id == 'len' and len(e.args) == 1 \
+                and isinstance(e.args[0], ast.Subscript) and lib.subscript_key(e.args[0]) == 'msg' and isinstance(e.args[0].value, ast.Name):
+            if e.args[0].value.id == xv:
+                return lx
+            if e.args[0].value.id in best_alias:
+                return lb
+        raise Unknown()
+
+    def truth(e, *v):
+        if isinstance(e, ast.BoolOp):
+            vals = [truth(x, *v) for x in e.values]
+            return all(vals) if isinstance(e.op, ast.And) else any(vals)
+        if isinstance(e, ast.UnaryOp) and isinstance(e.op, ast.Not):
+            return not truth(e.operand, *v)
+        if isinstance(e, ast.Compare) and len(e.ops) == 1 and type(e.ops[0]) in OPS:
+            return OPS[type(e.ops[0])](val(e.left, *v), val(e.comparators[0], *v))
+        raise Unknown()
+    ORD = (('lower', 0, 1), ('equal', 1, 1), ('higher', 2, 1))
+    LEN = (('shorter', 0, 1), ('equally long', 1, 1), ('longer', 2, 1))
+    wrong = None
+    try:
+        for gname, gx, gb in ORD:
+            for lname, lx, lb in LEN:
+                got = all(truth(c, gx, gb, lx, lb) for c in conj)
+                if gname == 'equal' and lname == 'equally long':
+                    continue
+                want = gname == 'higher' or (gname == 'equal' and lname == 'longer')
+                if got != want and wrong is None:
+                    wrong = (gname, lname, got)
+    except Unknown:
+        r.undecided(C + ': winner', 'update condition of the running-best loop is not a comparison of grades / message lengths: %s'
+                    % ' and '.join(unparse(c) for c in conj), where)
+        wrong = 'und'
+    cw = lib.loc(fi, upd)
+    if wrong is None:
+        r.ok(C + ': winner', 'the running best is replaced iff the grade is higher, or equal with a longer message (decided on the 8 '
+             'order classes)', cw)
+    elif wrong != 'und':
+        gname, lname, got = wrong
+        r.violation(C + ': winner', 'a result with a %s grade and a %s message %s the running best (`%s`): %s'
+                    % (gname, lname, 'replaces' if got else 'does not replace', ' and '.join(unparse(c) for c in conj),
+                       'a lower-scoring alternative with a longer message beats the best-scoring one' if gname == 'lower' and got else
+                       ('the student does not receive the highest credit' if gname == 'higher' else
+                        'ties are not broken by the longest message')), cw,
+                    expected='grade > best grade or (grade == best grade and len(msg) > len(best msg))')
+    # ---- best score, if named, is the winner's grade
+    info.winner_names = {wname}
+    info.best_names = {k for k, v in env.items() if isinstance(v, ast.Subscript) and fl.name_of(v.value) == wname
+                       and lib.subscript_key(v) == 'grade_decimal'}
+    r.ok(C + ': best score', "the best score is the winner's own grade_decimal (%s)" % (sorted(info.best_names) or 'read from the winner'),
+         where)
+    inside = fl.enclosing_loop(loop, fi.node) is not None
+    anchor = info.collect_anchor or (info.outer.iter if info.host is fi and info.outer is not None else (info.comp if info.host is fi else None))
+    if anchor is None:
+        defs = [n for n in walk_own(fi.node) if isinstance(n, ast.Assign) and any(fl.name_of(t) == res_name for t in n.targets)]
+        anchor = defs[0].value if len(defs) == 1 else None
+    if anchor is None:
+        r.undecided(C + ': selection order', 'cannot relate the selection to the collection of the results', where)
+    else:
+        r.check(not inside and lib.dominated(fi, [anchor], [init]), C + ': selection order', 'after all results are collected',
+                'the selection runs inside the loop over the alternatives (on partial results)', where)
+    return True
+
+
 def d2_selection(ctx, idx, info):
     r = ctx.rule('D2.SELECT', 'verdict = longest message among the results whose grade equals the maximum grade', floor=4)
     with r:
@@ -465,6 +586,8 @@ def d2_selection(ctx, idx, info):
         wname = rets[0].value.id
         W, aliases = _follow(rets[0].value, env)
         if isinstance(W, ast.Name):
+            if _fold_selection(r, fi, C, info, res_name, W.id, env):
+                return
             raise AnalysisError('ItemGrader.check: the returned name `%s` is not bound exactly once' % W.id)
         info.winner_names = set(aliases)
         where = lib.loc(fi, W) if hasattr(W, 'lineno') else fi.loc
@@ -613,8 +736,30 @@ def _grade_classes(exprs, is_score):
     return reps
 
 
-def _truth(e, empty, g, is_msg, is_score):
-    """Truth of a guard for the class (winner's message empty?, order-type representative g of the best grade)."""
+OK_FOR_GRADE = {'zero': (False,), 'partial': ('partial',), 'full': (True, False, 'partial')}
+
+
+def _ok_options(g):
+    """ok values a verdict with grade g can carry: ok follows the grade except at grade 1, where the author may pin it
+    (validate_single_answer recomputes ok only when it is 'computed' or the grade differs from 1)."""
+    return OK_FOR_GRADE['zero' if g == 0 else ('full' if g == 1 else 'partial')]
+
+
+def _truth(e, empty, g, is_msg, is_score, is_ok=None, okv=None):
+    """Truth of a guard for the class (winner's message empty?, order-type representative g of the best grade, ok value)."""
+    if is_ok is not None and is_ok(e):
+        return bool(okv)
+    if is_ok is not None and isinstance(e, ast.Compare) and len(e.ops) == 1 and isinstance(e.ops[0], (ast.Is, ast.IsNot, ast.Eq, ast.NotEq)):
+        for a, b in ((e.left, e.comparators[0]), (e.comparators[0], e.left)):
+            if is_ok(a) and isinstance(b, ast.Constant) and (isinstance(b.value, (bool, str))):
+                same = (okv is b.value) if isinstance(b.value, bool) or isinstance(okv, bool) else (okv == b.value)
+                return same if isinstance(e.ops[0], (ast.Is, ast.Eq)) else not same
+    if isinstance(e, (ast.BoolOp, ast.UnaryOp)) and is_ok is not None:
+        if isinstance(e, ast.BoolOp):
+            vals = [_truth(v, empty, g, is_msg, is_score, is_ok, okv) for v in e.values]
+            return all(vals) if isinstance(e.op, ast.And) else any(vals)
+        if isinstance(e.op, ast.Not):
+            return not _truth(e.operand, empty, g, is_msg, is_score, is_ok, okv)
     import operator
     OPS = {ast.Eq: operator.eq, ast.NotEq: operator.ne, ast.Lt: operator.lt, ast.LtE: operator.le, ast.Gt: operator.gt,
            ast.GtE: operator.ge}
@@ -697,6 +842,9 @@ def d3_wrong_msg(ctx, idx, info):
         def is_score(e):
             return (isinstance(e, ast.Name) and e.id in bests) or \
                 (isinstance(e, ast.Subscript) and fl.name_of(e.value) in wnames and lib.subscript_key(e) == 'grade_decimal')
+
+        def is_ok(e):
+            return isinstance(e, ast.Subscript) and fl.name_of(e.value) in wnames and lib.subscript_key(e) == 'ok'
         # the statements after the winner is known, as decision paths (nothing substituted: guards keep their names)
         body = fi.node.body
         wdef = [i for i, s_ in enumerate(body) if isinstance(s_, ast.Assign) and
@@ -715,15 +863,17 @@ def d3_wrong_msg(ctx, idx, info):
         bad_ret = [p for p in paths if p.leaf.kind == 'fall' or (p.leaf.kind == 'ret' and fl.name_of(p.leaf.expr) not in wnames)]
         mismatch = None
         try:
+            reads_ok = any(is_ok(n) for g_ in guards for n in ast.walk(g_))
             for empty in (True, False):
                 for g in reps:
-                    taken = [p for p in paths if all(_truth(x, empty, g, is_msg, is_score) for x in p.guards)]
-                    if len(taken) != 1:
-                        raise _Unknown()
-                    p = taken[0]
-                    stored = any(isinstance(e, ast.Assign) and lib.mentions_config(e.value, 'wrong_msg') for e in p.effects)
-                    if stored != (empty and g == 0) and mismatch is None:
-                        mismatch = (empty, g, stored, p)
+                    for okv in (_ok_options(g) if reads_ok else (None,)):
+                        taken = [p for p in paths if all(_truth(x, empty, g, is_msg, is_score, is_ok, okv) for x in p.guards)]
+                        if len(taken) != 1:
+                            raise _Unknown()
+                        p = taken[0]
+                        stored = any(isinstance(e, ast.Assign) and lib.mentions_config(e.value, 'wrong_msg') for e in p.effects)
+                        if stored != (empty and g == 0) and mismatch is None:
+                            mismatch = (empty, g, stored, p, okv)
         except _Unknown:
             r.undecided(C + ' condition', 'a guard after the selection is neither a test of the winner\'s message nor of the best grade: %s'
                         % '; '.join(sorted({short(g, 60) for g in guards})), where)
@@ -732,11 +882,17 @@ def d3_wrong_msg(ctx, idx, info):
             r.ok(C + ' condition', "assigned exactly for (message empty, best grade 0) among the %d (message, grade order type) classes"
                  % (2 * len(reps)), where)
         else:
-            empty, g, stored, p = mismatch
-            r.violation(C + ' condition', 'for (winner\'s message %s, best grade %s) wrong_msg %s (path guards: %s): it must appear '
-                        'exactly when the best grade is zero and no specific message applies'
-                        % ('empty' if empty else 'non-empty', g, 'replaces the message' if stored else 'is not shown',
-                           ' and '.join(unparse(x) for x in p.guards) or 'none'), where,
+            empty, g, stored, p, okv = mismatch
+            extra = ''
+            if okv is not None:
+                extra = (" -- the guard reads the verdict's ok flag, which the author can set independently of the grade (an answer "
+                         "configured with 'ok': %r and full credit keeps ok=%r at grade 1), so it is not equivalent to `best grade == 0`"
+                         % (okv, okv))
+            r.violation(C + ' condition', 'for (winner\'s message %s, best grade %s%s) wrong_msg %s (path guards: %s): it must appear '
+                        'exactly when the best grade is zero and no specific message applies%s'
+                        % ('empty' if empty else 'non-empty', g, '' if okv is None else ', ok=%r' % (okv,),
+                           'replaces the message' if stored else 'is not shown',
+                           ' and '.join(unparse(x) for x in p.guards) or 'none', extra), where,
                         expected="if msg == '' and best_score == 0: msg = wrong_msg")
         if bad_ret:
             p = bad_ret[0]
@@ -860,6 +1016,12 @@ MUTANTS = [
     Mutant('wrong-msg-never', BASE, "            best_result_with_longest_msg['msg'] = self.config[\"wrong_msg\"]\n", "            pass\n", 'D3'),
     Mutant('seeded-wrong-msg-before-selection', BASE, _LOOP + "\n        # Now find the best result for the student\n        best_score = max([r['grade_decimal'] for r in results])\n        best_results = [r for r in results if r['grade_decimal'] == best_score]\n        best_result_with_longest_msg = max(best_results, key=lambda r: len(r['msg']))\n\n        # Add in wrong_msg if appropriate\n        if best_result_with_longest_msg['msg'] == \"\" and best_score == 0:\n            best_result_with_longest_msg['msg'] = self.config[\"wrong_msg\"]\n",
            "                result = self.check_response(answercopy, student_input, **kwargs)\n                if result['msg'] == \"\" and result['grade_decimal'] == 0:\n                    result['msg'] = self.config[\"wrong_msg\"]\n                results.append(result)\n\n        best_score = max([r['grade_decimal'] for r in results])\n        best_results = [r for r in results if r['grade_decimal'] == best_score]\n        best_result_with_longest_msg = max(best_results, key=lambda r: len(r['msg']))\n", 'D3'),
+    Mutant('seeded-fold-without-tie-guard', BASE, "        best_score = max([r['grade_decimal'] for r in results])\n        best_results = [r for r in results if r['grade_decimal'] == best_score]\n        best_result_with_longest_msg = max(best_results, key=lambda r: len(r['msg']))\n",
+           "        best_result_with_longest_msg = results[0]\n        for result in results[1:]:\n            best = best_result_with_longest_msg\n            if result['grade_decimal'] > best['grade_decimal'] or len(result['msg']) > len(best['msg']):\n                best_result_with_longest_msg = result\n        best_score = best_result_with_longest_msg['grade_decimal']\n", 'D2'),
+    Mutant('fold-prefers-shorter', BASE, "        best_score = max([r['grade_decimal'] for r in results])\n        best_results = [r for r in results if r['grade_decimal'] == best_score]\n        best_result_with_longest_msg = max(best_results, key=lambda r: len(r['msg']))\n",
+           "        best_result_with_longest_msg = results[0]\n        for result in results[1:]:\n            best = best_result_with_longest_msg\n            if result['grade_decimal'] > best['grade_decimal'] or (result['grade_decimal'] == best['grade_decimal'] and len(result['msg']) < len(best['msg'])):\n                best_result_with_longest_msg = result\n        best_score = best_result_with_longest_msg['grade_decimal']\n", 'D2'),
+    Mutant('seeded-wrong-msg-reads-ok-flag', BASE, "        if best_result_with_longest_msg['msg'] == \"\" and best_score == 0:",
+           "        if best_result_with_longest_msg['msg'] == \"\" and not best_result_with_longest_msg['ok']:", 'D3'),
     Mutant('copy-dropped', BASE, "            answercopy = answer.copy()\n", "            answercopy = answer\n", 'D4'),
     Mutant('narrow-in-place', BASE, "                answercopy['expect'] = entry\n" + _LOOP,
            "                answer['expect'] = entry\n                result = self.check_response(answer, student_input, **kwargs)\n                results.append(result)\n", 'D4'),
@@ -885,5 +1047,9 @@ BENIGN = [
            "        results = [self.check_response(dict(answer, expect=entry), student_input, **kwargs)\n                   for answer in answers for entry in answer['expect']]\n"),
     Benign('generator-helper', BASE, "        results = []\n        for answer in answers:\n            # Iterate through each entry in the expect tuple\n            answercopy = answer.copy()\n            for entry in answer['expect']:\n                answercopy['expect'] = entry\n" + _LOOP,
            "        def single_expect_answers(alternatives):\n            for answer in alternatives:\n                answercopy = answer.copy()\n                for entry in answer['expect']:\n                    answercopy['expect'] = entry\n                    yield answercopy\n        results = [self.check_response(candidate, student_input, **kwargs)\n                   for candidate in single_expect_answers(answers)]\n"),
+    Benign('running-best-fold', BASE, "        best_score = max([r['grade_decimal'] for r in results])\n        best_results = [r for r in results if r['grade_decimal'] == best_score]\n        best_result_with_longest_msg = max(best_results, key=lambda r: len(r['msg']))\n",
+           "        best_result_with_longest_msg = results[0]\n        for result in results[1:]:\n            best = best_result_with_longest_msg\n            if result['grade_decimal'] > best['grade_decimal'] or (result['grade_decimal'] == best['grade_decimal'] and len(result['msg']) > len(best['msg'])):\n                best_result_with_longest_msg = result\n        best_score = best_result_with_longest_msg['grade_decimal']\n"),
+    Benign('wrong-msg-ok-and-grade', BASE, "        if best_result_with_longest_msg['msg'] == \"\" and best_score == 0:",
+           "        if best_result_with_longest_msg['msg'] == \"\" and best_result_with_longest_msg['ok'] is False and best_score == 0:"),
     Benign('log-in-loop', BASE, _LOOP, _LOOP + "                self.log('checked one alternative')\n"),
 ]
